@@ -401,11 +401,11 @@ func Instructions(code []byte) ([]Instr, error) {
 
 // Static facts computed by Verify, per instruction offset.
 type Static struct {
-	Instrs  []Instr
-	Index   map[int]int // offset -> index in Instrs
-	Depth   map[int]int // operand-stack depth on entry
-	BDepth  map[int]int // block depth on entry
-	Jumps   int
+	Instrs   []Instr
+	Index    map[int]int // offset -> index in Instrs
+	Depth    map[int]int // operand-stack depth on entry
+	BDepth   map[int]int // block depth on entry
+	Jumps    int
 	MaxDepth int
 }
 
